@@ -114,16 +114,18 @@ PROPS = {
     },
     "C16": {
         "layers": ["tb", "cc"], "classes": ["C16."],
-        "modes": {"quick": [{"mode": "conc", "args": ["-n", 120, "-actions", 12, "-sm", 300], "timeout": 900}],
-                  "thorough": [{"mode": "conc", "args": ["-n", 6000, "-actions", 300, "-sm", 20000, "-workers", 14], "timeout": 3400}],
-                  "search": [{"mode": "conc", "args": ["-n", 1500, "-actions", 60, "-sm", 4000, "-workers", 14], "timeout": 2000}]},
+        "modes": {"quick": [{"mode": "conc", "args": ["-n", 120, "-actions", 12, "-sm", 300, "-openvs", 18], "timeout": 900}],
+                  "thorough": [{"mode": "conc", "args": ["-n", 6000, "-actions", 300, "-sm", 20000, "-openvs", 1400, "-workers", 14], "timeout": 3400}],
+                  "search": [{"mode": "conc", "args": ["-n", 1500, "-actions", 60, "-sm", 4000, "-openvs", 140, "-workers", 14], "timeout": 2000}]},
         "rule": ("bursts in child processes: (a) 2..64 goroutines released together fire PlayerReserve (fixed seats that may collide, random seats), PlayersLeave and "
                  "UpdateTablePlayers at one table (2..10 seats, some players seated before); the burst is linearised from the notifications the engine emits inside its lock "
                  "(each step explained by exactly one successful call; departures of failed batch updates, finding D20, by those) and replayed through the TB model, which must "
                  "reproduce every intermediate snapshot and the final table + seat-manager state; direct checks: no seat twice, nobody lost or duplicated, capacity; "
                  "(b) at every betting decision of real hands every participant submits every action kind at once: accepted actions must pair with the backend calls applied and "
                  "each must come from the current player of the state it was applied to; the hand must settle with chips conserved; (c) 2..31 goroutines assign fixed / random "
-                 "seats on a bare seat manager; non-trivial = a burst with at least two successful calls; distinct = distinct linearised traces"),
+                 "seats on a bare seat manager; (d) a membership call is queued on the engine lock behind another (started from the first one's listener, which is notified "
+                 "with the lock held) when the gate fires, so that the open has calls waiting in front of it and behind it: a reservation / departure that returned nil must show "
+                 "afterwards and table and seat manager must agree seat by seat; non-trivial = a burst with at least two successful calls; distinct = distinct linearised traces"),
         "trusted_base": TB_COMMON + ["the Go scheduler decides the interleavings that are explored; no tool here can force one"],
         "assumptions": ["operations that hold the engine lock for their whole body are atomic steps of the model; which order results is observed, not chosen"],
         "extra_obligations": [],
